@@ -249,8 +249,10 @@ class _InstallWrapper(IpcCommand):
 
     def __init__(self, *args, **kwargs):
         super().__init__(*args, **kwargs)
+        self._init_coroutines()
 
-        # initialize file/dir creation coroutines
+    def _init_coroutines(self):
+        """Initialize file/dir creation coroutines."""
         self.install = self._install().send
         self.install_dirs = self._install_dirs().send
         self.install_symlinks = self._install_symlinks().send
@@ -262,6 +264,11 @@ class _InstallWrapper(IpcCommand):
         self.parser.set_defaults(
             insoptions=self.insoptions_default, diroptions=self.diroptions_default
         )
+        # The helper object serves every request of a build. A coroutine that
+        # raised (e.g. a nonfatal failure) is finished for good, and a previous
+        # request may have switched to the `install` command fallback, so start
+        # each request from a fresh set.
+        self._init_coroutines()
         args = super().parse_args(*args, **kwargs)
         self.parse_install_options()
         return args
